@@ -82,6 +82,9 @@ func (c *typeDefFirstChecker) receiverType(e ast.Expr) string {
 		return c.receiverType(e.X)
 	case *ast.IndexListExpr:
 		return c.receiverType(e.X)
+	case *ast.ParenExpr:
+		// func ((T)) m() and func (*(T)) m() are valid receivers.
+		return c.receiverType(e.X)
 	default:
 		panic("unreachable")
 	}
